@@ -705,6 +705,10 @@ func main() {
 	}
 	sb.WriteString("]\n\n")
 	sb.WriteString("\nend Ebu.Generated\n")
+	if err := emitSQLFacts(*repo, *out); err != nil {
+		fmt.Fprintln(os.Stderr, err)
+		os.Exit(1)
+	}
 	if err := os.WriteFile(filepath.Join(*out, "LockFacts.lean"), []byte(sb.String()), 0o644); err != nil {
 		fmt.Fprintln(os.Stderr, err)
 		os.Exit(1)
@@ -737,6 +741,142 @@ func constInt(path, name string) int {
 		}
 	}
 	return 0
+}
+
+// ---- SQL facts of the SQLite store (C14) ----
+
+func sqlTokens(sql string) []string {
+	var toks []string
+	cur := ""
+	flush := func() {
+		if cur != "" {
+			toks = append(toks, cur)
+			cur = ""
+		}
+	}
+	for _, c := range sql {
+		switch {
+		case c == ' ' || c == '\n' || c == '\t' || c == '\r':
+			flush()
+		case strings.ContainsRune("(),=", c):
+			flush()
+			toks = append(toks, string(c))
+		default:
+			cur += string(c)
+		}
+	}
+	flush()
+	return toks
+}
+
+func leanStrList(l []string) string {
+	q := make([]string, len(l))
+	for i, s := range l {
+		q[i] = strconv.Quote(s)
+	}
+	return "[" + strings.Join(q, ", ") + "]"
+}
+
+// emitSQLFacts extracts every SQL string literal of stores/sqlite/{store,schema}.go as token lists,
+// keyed by where it is used: pragmas, schema statements (and whether they run inside the migration
+// transaction), the prepared Append / SaveOffset statements, and how Append and SaveOffset execute.
+func emitSQLFacts(repo, out string) error {
+	fset := token.NewFileSet()
+	var pragmas, schema, migrateTx [][]string
+	var appendSQL, saveSQL []string
+	appendExecs, saveExecs := 0, 0
+	consts := map[string]string{}
+	for _, file := range []string{"stores/sqlite/schema.go", "stores/sqlite/store.go"} {
+		f, err := parser.ParseFile(fset, filepath.Join(repo, file), nil, 0)
+		if err != nil {
+			return err
+		}
+		// constants
+		for _, d := range f.Decls {
+			if gd, ok := d.(*ast.GenDecl); ok && gd.Tok == token.CONST {
+				for _, sp := range gd.Specs {
+					vs := sp.(*ast.ValueSpec)
+					for i, n := range vs.Names {
+						if i < len(vs.Values) {
+							if bl, ok := vs.Values[i].(*ast.BasicLit); ok && bl.Kind == token.STRING {
+								v, _ := strconv.Unquote(bl.Value)
+								consts[n.Name] = v
+							}
+						}
+					}
+				}
+			}
+		}
+		for _, d := range f.Decls {
+			fd, ok := d.(*ast.FuncDecl)
+			if !ok || fd.Body == nil {
+				continue
+			}
+			fn := fd.Name.Name
+			ast.Inspect(fd.Body, func(n ast.Node) bool {
+				switch x := n.(type) {
+				case *ast.BasicLit:
+					if x.Kind != token.STRING {
+						return true
+					}
+					v, _ := strconv.Unquote(x.Value)
+					up := strings.ToUpper(strings.TrimSpace(v))
+					switch {
+					case fn == "applyPragmas" && strings.HasPrefix(up, "PRAGMA"):
+						pragmas = append(pragmas, sqlTokens(strings.ReplaceAll(v, "%d", "N")))
+					case fn == "prepareStatements" && strings.HasPrefix(up, "INSERT INTO EVENTS"):
+						appendSQL = sqlTokens(v)
+					case fn == "prepareStatements" && strings.HasPrefix(up, "INSERT INTO SUBSCRIPTION_POSITIONS"):
+						saveSQL = sqlTokens(v)
+					case fn == "migrateV1" && strings.HasPrefix(up, "INSERT INTO SCHEMA_VERSION"):
+						migrateTx = append(migrateTx, sqlTokens(v))
+					}
+				case *ast.Ident:
+					if v, ok := consts[x.Name]; ok && strings.Contains(strings.ToUpper(v), "CREATE") {
+						switch fn {
+						case "migrateV1":
+							migrateTx = append(migrateTx, sqlTokens(v))
+						case "migrate":
+							schema = append(schema, sqlTokens(v))
+						}
+					}
+				case *ast.CallExpr:
+					if sel, ok := x.Fun.(*ast.SelectorExpr); ok && sel.Sel.Name == "ExecContext" {
+						if inner, ok := sel.X.(*ast.SelectorExpr); ok {
+							if fn == "Append" && inner.Sel.Name == "appendStmt" {
+								appendExecs++
+							}
+							if fn == "SaveOffset" && inner.Sel.Name == "saveOffsetStmt" {
+								saveExecs++
+							}
+						}
+					}
+				}
+				return true
+			})
+		}
+	}
+	var sb strings.Builder
+	sb.WriteString("/- GENERATED by /verif/go/extract from stores/sqlite/{store,schema}.go; do not edit. SQL text as token lists. -/\nnamespace Ebu.Generated.Sql\n\n")
+	list2 := func(name string, ll [][]string) {
+		sb.WriteString("def " + name + " : List (List String) := [\n")
+		for i, l := range ll {
+			sep := ","
+			if i == len(ll)-1 {
+				sep = ""
+			}
+			sb.WriteString("  " + leanStrList(l) + sep + "\n")
+		}
+		sb.WriteString("]\n\n")
+	}
+	list2("pragmas", pragmas)
+	list2("migrateOutsideTx", schema)
+	list2("migrateInTx", migrateTx)
+	sb.WriteString("def appendSql : List String := " + leanStrList(appendSQL) + "\n\n")
+	sb.WriteString("def saveOffsetSql : List String := " + leanStrList(saveSQL) + "\n\n")
+	sb.WriteString(fmt.Sprintf("/-- number of statement executions in `Append` / `SaveOffset` (each must be exactly one prepared statement) -/\ndef appendExecs : Nat := %d\ndef saveOffsetExecs : Nat := %d\n", appendExecs, saveExecs))
+	sb.WriteString("\nend Ebu.Generated.Sql\n")
+	return os.WriteFile(filepath.Join(out, "SqlFacts.lean"), []byte(sb.String()), 0o644)
 }
 
 type callSites struct {
